@@ -243,6 +243,27 @@ def r1_languages(ctx):
 
     def lookup(t, c, v):
         return sel.get((t, c, v)) or sel.get((t, c, None))
+    # the wrapper's verdict is the selected expression's and nothing else (constant propagation, compiled constants in
+    # the environment): ASCII and non-ASCII letters and digits, blanks, control and punctuation characters
+    badn = []
+    VALS = ('', 'ABC', 'abc', 'A B', 'A1', '\u00c9', '\u00c9COLE1', '\u03a9', '\u0661\u0662', '\uff21\uff22', 'a^', '~', '`', 'A\n', '\u2167', 'STRA\u00dfE', '12',
+            '1\u00b2', ' ', 'A\x07', '{}', '\u00c0\u00c7')
+    for t_, c_, v_ in (('ID', 'B', '00401'), ('AN', 'B', '00501'), ('ID', 'E', '00401'), ('AN', 'E', '00401'), ('ID', 'E', '00501'), ('AN', 'E', '00501'),
+                       ('DT', 'B', '00401'), ('TM', 'E', '00501')):
+        nm_ = lookup(t_, c_, v_) or lookup(t_, c_, None) or lookup(t_, None, None) or next((n for (tt, cc, vv), n in sel.items() if tt == t_), None)
+        if nm_ not in envc:
+            continue
+        for val in VALS:
+            m_ = envc[nm_].search(val)
+            want_ = bool(m_ and m_.group(0))
+            try:
+                got = run_function(ctx.cfg(fn), fn, [t_, val, c_, v_], {}, env=dict(envc))
+            except (NotClosedTest, A.NotClosed) as e:
+                raise AnalysisError('validation:not_match_re cannot be decided for (%s, %r, %s, %s): %s' % (t_, val, c_, v_, e))
+            if bool(got) != want_ and len(badn) < 3:
+                badn.append('not_match_re(%r, %r, %r, %r) is %r, the expression %s says %r' % (t_, val, c_, v_, got, nm_, want_))
+    yield Ob('validation:not_match_re returns the verdict of the selected expression for every value', not badn, ctx.floc(fn),
+             '' if not badn else badn[0] + ' - a shortcut beside the expression accepts or rejects values on its own')
     want = [(('ID', 'B', '00401'), 'B'), (('ID', 'B', '00501'), 'B'), (('AN', 'B', '00401'), 'B'), (('AN', 'B', '00501'), 'B'),
             (('ID', 'E', '00401'), 'E'), (('AN', 'E', '00401'), 'E'), (('ID', 'E', '00501'), 'E5'), (('AN', 'E', '00501'), 'E5'),
             (('DT', None, None), 'D'), (('TM', None, None), 'D')]
